@@ -63,3 +63,12 @@ theorem AU_authenticate (hf : Bytes → Option Bytes) (table : Auth.Table) (real
 theorem AU_addUserIsInsert : GenAuth.addUserIsInsert = true := rfl
 
 end Via
+
+namespace Via
+/-- non-vacuity: the translated `is_valid` accepts "Basic dTpw" (= base64 of "u:p") for the table [("u","p")] and
+    refuses it for [("u","q")] -/
+example : GenAuth.isValid (fun k => if k = GenAuth.lcAuthorization then some (b!"Basic dTpw") else none)
+    (fun u => Auth.tableFind u [(b!"u", b!"p")]) = some true := by decide
+example : GenAuth.isValid (fun k => if k = GenAuth.lcAuthorization then some (b!"Basic dTpw") else none)
+    (fun u => Auth.tableFind u [(b!"u", b!"q")]) = some false := by decide
+end Via
